@@ -253,6 +253,22 @@ func (harness) Configs(tier string) []xplore.Config {
 			}
 		}
 	}
+	// deep trees with sibling leaves at every depth from 2 to 8 (slices grown by
+	// append reach their capacity at 1, 2, 4, 8 elements): walks, sorted walks and
+	// queries that keep the paths they are handed, next to an add and a delete
+	for depth := 2; depth <= 8; depth++ {
+		var pre []string
+		for i := 1; i < depth; i++ {
+			pre = append(pre, fmt.Sprintf("e%d", i))
+		}
+		base := strings.Join(pre, "/")
+		init := []string{base + "/x", base + "/y", base + "/z"}
+		q := append(append([]string{}, pre...), "*")
+		for _, rd := range []opSpec{{"walk", nil, ""}, walkSorted, {"query", q, ""}, {"query", []string{"*"}, ""}} {
+			add(init, [][]opSpec{{rd}, {{"add", append(append([]string{}, pre...), "w"), "v1"}}}, 2)
+			add(init, [][]opSpec{{rd}, {{"del", append(append([]string{}, pre...), "y"), ""}}}, 2)
+		}
+	}
 	// conditional deletes (what the cache's timestamped delete is built on):
 	// DeleteConditional / WalkDeleted over two leaves of which one satisfies the
 	// condition, against a goroutine that - in program order - makes the other
@@ -445,6 +461,8 @@ type rec struct {
 	reported map[string]string // query / walk: path -> value
 	dup      bool              // query reported a path twice
 	unsorted bool              // WalkSorted visited paths out of lexicographic order
+	kept     [][]string        // query / walk: the path slices handed to the visitor, retained
+	keptAs   []string          // what each of them spelled when it was handed over
 	qid      int
 }
 
@@ -704,6 +722,15 @@ func (harness) Run(cfg xplore.Config, ch vrt.Chooser, trace bool) (xplore.Outcom
 								r.dup = true
 							}
 							r.reported[k] = fmt.Sprint(v)
+							// a Walk / WalkSorted visitor keeps the path it was handed
+							// (CacheClient.Leaves does; the walks copy the path per child
+							// for that reason). Query hands out slices that share their
+							// backing array between siblings - no caller in the repository
+							// keeps those and the property does not speak of it: not judged.
+							if o.kind != "query" {
+								r.kept = append(r.kept, p)
+								r.keptAs = append(r.keptAs, k)
+							}
 							return nil
 						}
 						switch o.kind {
@@ -753,6 +780,12 @@ func (harness) Run(cfg xplore.Config, ch vrt.Chooser, trace bool) (xplore.Outcom
 			}
 			if r.unsorted {
 				out.Violations = append(out.Violations, xplore.Violation{Class: "walksorted-order", Msg: "WalkSorted visited leaves out of lexicographic order"})
+			}
+			for i, p := range r.kept {
+				if now := strings.Join(p, "/"); now != r.keptAs[i] {
+					out.Violations = append(out.Violations, xplore.Violation{Class: "visitor-path-overwritten", Msg: fmt.Sprintf("%s handed its visitor the path %q; kept until the operation returned, the same slice spells %q (paths handed to a visitor belong to it)", r.spec, r.keptAs[i], now)})
+					break
+				}
 			}
 		}
 		ops := lops(all)
